@@ -212,6 +212,17 @@ def bitsOp (j : Json) : String :=
       | _ => acc ++ "?") ""
   s!"bits set={outs} get={gets} all={bitsStr bs.setBits} rt=ok"
 
+def vKids : List String :=
+  ["did:nuts:AAAAAAAAAAAAAAAAAAAAAAAAAAAAAAAAAAAAAAAAAAAA#k1", "did:nuts:BBBBBBBBBBBBBBBBBBBBBBBBBBBBBBBBBBBBBBBBBBBB#k1",
+   "did:nuts:CCCCCCCCCCCCCCCCCCCCCCCCCCCCCCCCCCCCCCCCCCCC#k1"]
+def vIssuer : String := "did:nuts:CCCCCCCCCCCCCCCCCCCCCCCCCCCCCCCCCCCCCCCCCCCC"
+
+/-- key resolution and signature verdicts of the verifier harness as data: the three known key ids resolve (to themselves);
+    a proof verifies iff the document was not changed after signing and the key that signed is the resolved one -/
+def keyEnv : KeyEnv :=
+  { resolveKey := fun vm _ => if vKids.contains vm then some vm else none
+    sigOK := fun pk _ sig => sig == "sig:" ++ pk }
+
 def emptyWorld : World := { a := { base := bases[0]! }, b := { base := bases[1]! } }
 
 def step (w : World) (j : Json) : World × List String :=
@@ -267,6 +278,40 @@ def step (w : World) (j : Json) : World × List String :=
     let (v, w') := statusVerify env node { w with log := [] } c
     (w', [s!"verify {verdictStr v} dl=[{String.intercalate "," (w'.log.map urlName)}]"])
   | "bits" => (w, [bitsOp j])
+  -- second harness (vcr/verifier): node 1 is the verifier
+  | "vreset" => ({ a := { base := bases[0]! }, b := { base := "https://verifier.example" } }, ["vreset"])
+  | "vregister" =>
+    let tamper := jStr j "tamper"
+    let drop := jStr j "drop"
+    let r : Revocation :=
+      { subject := if tamper == "subject" then jStr j "subject" ++ "x" else jStr j "subject"
+        issuer := jStr j "issuer"
+        typeOk := drop != "type"
+        date := if drop == "date" then none else some 1
+        proof := if drop == "proof" then none else some { vm := jStr j "vm", -- `reason` is not defined in the JSON-LD context of CredentialRevocation, so it is not part of the canonical form
+                                                                  -- that is signed: changing it does not invalidate the proof (observed on the implementation)
+                                                                  sig := if tamper != "" && tamper != "reason" then "bad" else "sig:" ++ jStr j "signer" } }
+    match registerRevocation keyEnv w.b r with
+    | .ok n' => ({ w with b := n' }, ["vregister ok"])
+    | res => (w, ["vregister " ++ resErr res])
+  | "visrevoked" => (w, [s!"visrevoked {w.b.isRevoked (jStr j "id")}"])
+  | "vverify" =>
+    let sts := (jArr j "statuses").map fun s => ({ list := .raw (jStr s "url"), idx := atoi (jStr s "idx") } : StatusEntry)
+    let c : Cred := { id := if jStr j "id" == "" then none else some (jStr j "id"), issuer := jStr j "issuer"
+                      statuses := if sts.isEmpty then none else some sts }
+    let (v, w') := verifyFull env true w c (jStr j "kind" == "nutsorg")
+    (w', ["vverify " ++ verdictStr v])
+  | "vhost" =>
+    let url := jStr j "url"
+    let kind := jStr j "hostkind"
+    let bitsIdx := jNats j "bits"
+    let f : Nat → Fetch := fun now =>
+      if kind == "fail" then .fail else
+      let bits := bitsIdx.foldl (fun (bs : Bits) (i : Nat) => match bs.setBit (i : Int) true with | .ok b => b | _ => bs) (newBits env.lenBytes)
+      let body : VCBody := { issuer := vIssuer, issued := some now, expires := some (now + 3600)
+                             subjects := [{ id := .raw url, purpose := "revocation", enc := .ok bits }] }
+      .vc { body := body, proof := if kind == "ok" then some (sign (vIssuer ++ "#k1") body) else some "bad" }
+    ({ w with hosts := alPut w.hosts url f }, ["vhost"])
   | o => (w, ["bad-op:" ++ o])
 
 end Nuts.Drv.C11
